@@ -1619,6 +1619,8 @@ _C = 'aggregates/classification.py'
 _T = 'aggregates/retrieval.py'
 _MC = 'metrics/classification.py'
 VARIANTS = [
+    OK('mean-update-through-locals', 'aggregates/rolling_stats.py',
+       "    update = mean_diff * math_utils.safe_divide(other.count, self._count)\n    self._mean = math_utils.nanadd(self._mean, update)", "    weight = math_utils.safe_divide(other.count, self._count)\n    update = mean_diff * weight\n    self._mean = math_utils.nanadd(self._mean, update)"),
     OK('relative-difference-converted-with-an-explicit-copy', 'aggregates/rolling_stats.py',
        "    x = np.asarray(x).astype('float64')\n    y = np.asarray(y).astype('float64')\n", "    x = np.array(x, dtype='float64')\n    y = np.array(y, dtype='float64')\n"),
     B('relative-difference-computed-in-the-callers-buffer', 'aggregates/rolling_stats.py',
